@@ -13,13 +13,16 @@ FIRST = {
     "C10-A": "missed", "C10-B": "missed", "C11-A": "missed", "C11-B": "missed (C09 caught)", "C12-A": "exit 2", "C12-B": "caught", "C14-A": "missed", "C14-B": "missed",
     "C15-A": "caught", "C15-B": "missed", "C16-A": "missed (C10 caught)", "C16-B": "exit 2", "C17-A": "missed", "C17-B": "missed", "C18-A": "caught", "C18-B": "missed",
     "C20-A": "missed", "C20-B": "missed",
+    # third wave (after the rules had been strengthened on the first two) and the first changes for the new C19 check
+    "C01-C": "caught", "C01-D": "missed", "C02-C": "missed", "C02-D": "caught", "C03-C": "caught", "C03-D": "missed", "C07-C": "caught", "C07-D": "missed (C02 caught)",
+    "C10-C": "caught", "C10-D": "missed", "C12-C": "caught", "C12-D": "missed", "C19-A": "missed", "C19-B": "missed",
 }
 
 
 def main() -> int:
     rows = {}
     for line in open(os.path.join(VERIF, "seeded", "RESULTS.md")):
-        m = re.match(r"\| (C\d\d-[AB]) \| (C\d\d) \| ([^|]+) \| ([^|]*) \| (.*) \|$", line.rstrip())
+        m = re.match(r"\| (C\d\d-[A-D]) \| (C\d\d) \| ([^|]+) \| ([^|]*) \| (.*) \|$", line.rstrip())
         if m:
             rows[m.group(1)] = m.groups()
     print("| change | what was changed (one line) | needs | first run | now: rule(s) of the own check | also reported by |")
